@@ -48,6 +48,7 @@ THEOREMS = ["QExPy.C10_mean_def",
             "QExPy.C10_used_downstream",
             "QExPy.C10_selected_used_downstream",
             "QExPy.C10_used_downstream_via_intermediate",
+            "QExPy.C10_used_downstream_sq",
             "QExPy.C10_via_intermediate_eq_direct",
             "QExPy.C10_selected_used_downstream_via_intermediate",
             "QExPy.C10_used_downstream_pair",
@@ -295,7 +296,7 @@ def describe(c):
         d += " ; " + ", ".join(c["sels"])
     if "midread" in c:
         d += " ; k={!r}, c={!r}, mid=k*a and mid+c made at the start (read: {}), after every step k*a+c, " \
-             "mid+c, 1.0*(mid+c) read".format(unbits(c["k"]), unbits(c["c"]), c["midread"])
+             "mid+c, 1.0*(mid+c), mid*mid read".format(unbits(c["k"]), unbits(c["c"]), c["midread"])
     if c["pair"]:
         d += " ; infer {} ({} form) with {} array {!r}".format(
             c["pair"]["via"], c["pair"]["form"], c["pair"]["mode"], [unbits(y) for y in c["pair"]["ys"]])
@@ -345,8 +346,10 @@ def observe(q, c):
         d = kk * a + cc
         d1 = mid + cc           # a NEW calculation from the intermediate result kept from the start
         d2 = 1.0 * mid2         # ... and from the one built on top of it
+        d3 = mid * mid          # not linear in the intermediate: the product rule needs ITS central value
         return [float(a.value), float(a.error), float(d.value), float(d.error),
-                float(d1.value), float(d1.error), float(d2.value), float(d2.error)]
+                float(d1.value), float(d1.error), float(d2.value), float(d2.error),
+                float(d3.value), float(d3.error)]
 
     def mc_state():
         """the SAME downstream formula under the Monte Carlo method: the draws are recorded, so the
@@ -436,11 +439,12 @@ def model_line(c):
 SHAPES = ["lin", "sub", "prod", "quot"]
 # the same formulas as NEW calculations from intermediate results (k1*a, k2*b, a*b) that were made and
 # read before any selector step / before the correlation was recorded
-KEPT = {"klin": "lin", "kprod": "prod"}
+KEPT = {"klin": "lin", "kprod": "prod", "ksq": "sq"}
 ALL_SHAPES = SHAPES + list(KEPT)
 SHAPE_TEXT = {"lin": "k1*a + k2*b + c", "sub": "a - b", "prod": "a * b", "quot": "a / b",
               "klin": "ma + mb + c (ma = k1*a, mb = k2*b made and read at the start)",
-              "kprod": "1.0 * mp (mp = a*b made and read at the start)"}
+              "kprod": "1.0 * mp (mp = a*b made and read at the start)",
+              "ksq": "mp * mp (mp = a*b made and read at the start)"}
 RHO_MODES = ["inferred-cov", "inferred-corr", "explicit-corr", "none"]
 
 
@@ -548,7 +552,8 @@ def observe_pair2(q, c):
     for x in (ma, mb, mp):
         H.call(lambda: (float(x.value), float(x.error)))
     forms = {"lin": lambda: k1 * a + k2 * b + cc, "sub": lambda: a - b, "prod": lambda: a * b,
-             "quot": lambda: a / b, "klin": lambda: ma + mb + cc, "kprod": lambda: 1.0 * mp}
+             "quot": lambda: a / b, "klin": lambda: ma + mb + cc, "kprod": lambda: 1.0 * mp,
+             "ksq": lambda: mp * mp}
 
     def read():
         r = {"pairs": [float(a.value), float(a.error), float(b.value), float(b.error)]}
@@ -645,6 +650,8 @@ def radicand_terms(sh, k1, k2, va, ea, vb, eb, rho):
         da, db = 1.0, -1.0
     elif sh == "prod":
         da, db = vb, va
+    elif sh == "sq":            # (a*b)^2
+        da, db = 2.0 * va * vb * vb, 2.0 * va * va * vb
     else:
         da, db = 1.0 / vb, -va / (vb * vb)
     return [(da * ea) ** 2, (db * eb) ** 2, 2.0 * rho * ea * eb * da * db]
@@ -761,6 +768,7 @@ def exact_check_pair2(c, o, dist=None):
             got = st[shape]
             wantv, vmag = {"lin": (k1 * va + k2 * vb + cc, abs(k1) * mag_a + abs(k2) * mag_b + abs(cc)),
                            "sub": (va - vb, mag_a + mag_b), "prod": (va * vb, mag_a * mag_b),
+                           "sq": ((va * vb) ** 2, (mag_a * mag_b) ** 2),
                            "quot": (va / vb if vb else 0.0, mag_a / abs(vb) if vb else 1.0)}[sh]
             if isinstance(got, list) and isinstance(got[0], float) and \
                     not abs(got[0] - wantv) <= 1e-10 * max(vmag, abs(wantv)) + 1e-300:
@@ -838,6 +846,8 @@ def compare_pair2(c, o, m, dist):
         for sh in ALL_SHAPES:
             if sh not in st:
                 continue
+            if KEPT.get(sh, sh) not in md:
+                continue        # (a*b)^2: judged by the own first-order arithmetic only
             got = st[sh]
             (mv, mvb), (me, meb) = fb(md[KEPT.get(sh, sh)][0]), fb(md[KEPT.get(sh, sh)][1])
             if not (math.isfinite(me) and math.isfinite(meb) and meb <= 1e-6 * abs(me)):
@@ -857,7 +867,8 @@ def compare_pair2(c, o, m, dist):
 # ---------------------------------------------------------------- comparison
 FIELDS = ("value", "error", "downstream-value", "downstream-error",
           "downstream-value:via-kept-intermediate", "downstream-error:via-kept-intermediate",
-          "downstream-value:via-kept-intermediate-2-levels", "downstream-error:via-kept-intermediate-2-levels")
+          "downstream-value:via-kept-intermediate-2-levels", "downstream-error:via-kept-intermediate-2-levels",
+          "downstream-value:square-of-kept-intermediate", "downstream-error:square-of-kept-intermediate")
 
 
 def zero_spread_exact(c):
@@ -909,9 +920,10 @@ def const_check(c, o, fail):
         if not isinstance(ot, list):
             fail("selector:{}:exception".format(sel), "selector / read raised " + str(ot), impl=ot)
             break
-        exp = [val, err] + [kk * val + cc, abs(kk) * err] * 3
+        sq = [(kk * val) * (kk * val), abs(2 * (kk * val) * kk) * abs(err)]
+        exp = [val, err] + [kk * val + cc, abs(kk) * err] * 3 + sq
         # relative to the size of the TERMS (k*value and c may cancel), never to the result
-        mags = [abs(val), abs(err)] + [abs(kk * val) + abs(cc), abs(kk) * abs(err)] * 3
+        mags = [abs(val), abs(err)] + [abs(kk * val) + abs(cc), abs(kk) * abs(err)] * 3 + sq
         bad = [f for f, a, b, g in zip(FIELDS, ot, exp, mags)
                if not (a == b or abs(a - b) <= 1e-12 * g)]
         if bad:
@@ -1005,14 +1017,17 @@ def compare(c, o, m):
                 fail("stat:" + attr, "{} differs from its definition".format(attr), impl=o[attr],
                      expected=mv, bound=mb, clause=attr)
     # selector trace + downstream use
-    for i, (ot, mt, md, mv_) in enumerate(() if const else zip(o["trace"], m["trace"], m["down"],
-                                                               m.get("downvia") or m["down"])):
+    for i, (ot, mt, md, mv_, msq) in enumerate(() if const else zip(
+            o["trace"], m["trace"], m["down"], m.get("downvia") or m["down"],
+            m.get("downsq") or [None] * len(m["down"]))):
         sel = c["sels"][i - 1] if i else "init"
         if not isinstance(ot, list):
             fail("selector:{}:exception".format(sel), "selector / read raised " + str(ot), impl=ot)
             break
         # mid + c is the tree of k*a + c; 1.0*(mid + c) is Model/Downstream.lean `downstreamVia`
         exp = [fb(mt[0]), fb(mt[1])] + [fb(md[0]), fb(md[1])] * 2 + [fb(mv_[0]), fb(mv_[1])]
+        if msq is not None:     # mid*mid: Model/Downstream.lean `downstreamSq`
+            exp += [fb(msq[0]), fb(msq[1])]
         for (mv, mb), ov, field in zip(exp, ot, FIELDS):
             if not close(ov, mv, mb, slack=256.0):
                 fail("selector:{}:{}".format(sel, field),
@@ -1248,9 +1263,11 @@ def exact_check(c, o):
         if not isinstance(ot, list):
             fail("selector:exception", "selector raised", ot, None)
             break
-        exp = [val, err] + [kk * val + cc, abs(kk) * err] * 3
-        mags = [vmag, err] + [abs(kk) * vmag + abs(cc), abs(kk) * err] * 3
-        tols = [1e-12, tol] + [1e-12, tol] * 3
+        exp = [val, err] + [kk * val + cc, abs(kk) * err] * 3 + [
+            (kk * val) ** 2, 2 * abs(kk * val) * abs(kk) * err]
+        mags = [vmag, err] + [abs(kk) * vmag + abs(cc), abs(kk) * err] * 3 + [
+            (kk * vmag) ** 2, 2 * abs(kk) * vmag * abs(kk) * err]
+        tols = [1e-12, tol] + [1e-12, tol] * 3 + [4e-12, 2 * tol]
         bad = [f for f, a, b, t, g in zip(FIELDS, ot, exp, tols, mags) if not near(a, b, t, g)]
         if bad:
             fail("selector:{}:{}".format(c["sels"][i - 1] if i else "init", bad[0]),
